@@ -986,7 +986,7 @@ var logActSets = [][]string{{}, {"log"}, {"nolog"}, {"auditlog"}, {"noauditlog"}
 func pick[T any](r *rand.Rand, l []T) T { return l[r.Intn(len(l))] }
 
 func genTx(r *rand.Rand, i int) *caseJSON {
-	c := &caseJSON{Kind: "tx", TxID: fmt.Sprintf("tx-%d-%04x", i, r.Intn(65536))}
+	c := &caseJSON{Kind: "tx", TxID: fmt.Sprintf("t%d", i)}
 	c.AuditEngine = pick(r, []string{"On", "RelevantOnly", "RelevantOnly", "RelevantOnly", "Off"})
 	c.RuleEngine = pick(r, []string{"On", "On", "DetectionOnly", "DetectionOnly", "Off"})
 	if r.Intn(12) != 0 && c.RuleEngine == "Off" {
@@ -1058,7 +1058,7 @@ func decisionGrid() []*caseJSON {
 						for _, viaCtl := range []bool{false, true} {
 							for _, disr := range []string{"pass", "deny"} {
 								n++
-								c := &caseJSON{Kind: "tx", TxID: fmt.Sprintf("grid-%d", n), AuditEngine: ae, RuleEngine: re, Parts: "ABCFHKZ",
+								c := &caseJSON{Kind: "tx", TxID: fmt.Sprintf("g%d", n), AuditEngine: ae, RuleEngine: re, Parts: "ABCFHKZ",
 									Pattern: pat, Format: "json", Writer: "plugin", Callback: true, NArgs: 1, Last: 4, Code: code}
 								if viaCtl {
 									c.AuditEngine = "Off"
@@ -1319,7 +1319,7 @@ func Run(cfg vh.Config) (*vh.Result, error) {
 		return nil, err
 	}
 	defer os.RemoveAll(tmp)
-	rn := &runner{cfg: cfg, res: res, tmp: tmp, seen: map[string]bool{}, capLimit: cfg.Pick(70, 3000)}
+	rn := &runner{cfg: cfg, res: res, tmp: tmp, seen: map[string]bool{}, capLimit: cfg.Pick(50, 3000)}
 	rng := vh.Rng(cfg.Seed, "c19")
 
 	flush := func(name string) error {
@@ -1372,8 +1372,8 @@ func Run(cfg vh.Config) (*vh.Result, error) {
 		return nil, err
 	}
 
-	nTx := cfg.Pick(750, 30000)
-	per := cfg.Pick(420, 1000)
+	nTx := cfg.Pick(600, 30000)
+	per := cfg.Pick(300, 1000)
 	shard := 1
 	for i := 0; i < nTx; i++ {
 		rn.runTx(genTx(rng, i))
